@@ -378,7 +378,7 @@ func runC13(c *Ctx) {
 	L.Rule("R-C13-PAIRADD", "store.Set only on the admitted side of policy.Add for the same item; no other caller; accounting entries created only by defaultPolicy.Add", 3)
 	L.Rule("R-C13-ARMS", "applier: itemNew → policy.Add, itemUpdate → policy.Update, itemDelete → policy.Del, each on its own arm only", 3)
 	L.Rule("R-C13-ACCOUNT", "used == sum(keyCosts) preserved by every writer (shared with C03)", 4)
-	L.Rule("R-C13-EXPINDEX", "map mutation and expiry-index call paired on every path under the write lock; the index files/unfiles the key in the bucket of the given expiration, old bucket first", 6)
+	L.Rule("R-C13-EXPINDEX", "map mutation and expiry-index call paired on every path under the write lock; the index files/unfiles the key in the bucket of the given expiration, old bucket first; sweep-cursor writers agree", 7)
 	L.Rule("R-C13-CLEAR", "Cache.Clear empties the cost accounting (policy.Clear → evict.clear) and the map (store.Clear) together, after the applier was stopped", 3)
 	L.Rule("R-C13-ITER", "IterValues: all shards, each entry at most once, stop propagates out of both loops", 3)
 
@@ -433,6 +433,10 @@ func runC13(c *Ctx) {
 	expIndexRule(c, "R-C13-EXPINDEX")
 	bucketIndexRule(c, "R-C13-EXPINDEX")
 	clearResetParts(c, "R-C13-CLEAR", "cache", "evict")
+	// "expired-and-swept": an expired key the sweep can never reach keeps its capacity for good
+	sweepCursorRule(c, "R-C13-EXPINDEX")
+	// a victim the policy forgot but never reported stays in the map uncharged: arg-min/victim/reject pairing inside Add (C09's rules)
+	importRules(c, runC09, map[string]string{"R-C09-VICTIM": "R-C13-PAIRDEL", "R-C09-REJECT": "R-C13-PAIRDEL", "R-C09-ARGMIN": "R-C13-PAIRDEL"})
 
 	// ---- R-C13-ITER
 	c.Group("R-C13-ITER", "shardedMap.IterValues", func() {
@@ -476,6 +480,10 @@ func runC13(c *Ctx) {
 			if len(cbs) > 1 {
 				good = false
 				L.Fail("R-C13-ITER", "shardedMap.IterValues#entries", "an entry is passed to the callback more than once per iteration", next.Pos())
+			}
+			if len(cbs) == 0 && p.End != ssa.Instruction(next) {
+				good = false
+				L.Fail("R-C13-ITER", "shardedMap.IterValues#entries", "an entry that is skipped (not yielded, e.g. expired) ends the enumeration of its shard instead of moving on to the next entry (block path "+p.BlockPath()+"): live entries behind it are never visited", next.Pos())
 			}
 			if len(cbs) == 1 {
 				switch p.CondHeld(tbi, tbi.T(cbs[0]).String(), nil) {
